@@ -848,6 +848,30 @@ func (env *Env) evalCall(x *ECall) (*Val, error) {
 				}
 			}
 			return nil, fmt.Errorf("keys() needs a Go map")
+		case "keysAt":
+			// keysAt(r, m): key set of the Go map object r, taken to be of the same map type as the map-typed expression m
+			// (for frame statements over every map of a type: forall r ref :: !fresh(r) ==> keysAt(r, m) == old(keysAt(r, m)))
+			if len(x.Args) == 2 {
+				m, err := env.eval(x.Args[1])
+				if err != nil {
+					return nil, err
+				}
+				r, err := env.eval(x.Args[0])
+				if err != nil {
+					return nil, err
+				}
+				if m.T != nil && len(r.L) == 1 && r.L[0].S == "Int" {
+					if _, ok := m.T.Underlying().(*types.Map); ok {
+						ksort, dk, ds, _, ok := e.mapKeys(m.T)
+						if !ok {
+							return nil, fmt.Errorf("map with composite key")
+						}
+						dom := e.heapGet(env.st, dk, ds)
+						return mathVal("(select "+dom+" "+r.L[0].T+")", "(Array "+ksort+" Bool)"), nil
+					}
+				}
+			}
+			return nil, fmt.Errorf("keysAt(r, m) needs a reference and a Go map expression")
 		case "fresh":
 			v, err := env.eval(x.Args[0])
 			if err != nil {
